@@ -31,6 +31,7 @@ import (
 	"strconv"
 	"strings"
 	"sync"
+	"sync/atomic"
 	"time"
 
 	"github.com/coredhcp/coredhcp/config"
@@ -103,6 +104,7 @@ func pool4() []plugConf {
 		{"staticroute", []string{"10.9.0.0/16,10.0.0.253"}}, {"lease_time", []string{"1800s"}}, {"ipv6only", []string{"600s"}},
 		{"autoconfigure", []string{"1"}}, {"nbp", []string{"tftp://10.0.0.2/pxelinux.0"}}, {"sleep", []string{"1ms"}},
 		{"file", []string{"leases4.txt"}}, {"range", []string{"leases.sqlite", "10.0.0.100", "10.0.0.103", "60s"}},
+		{"file", []string{"leases4.txt", "autorefresh"}},
 	}
 }
 
@@ -110,7 +112,7 @@ func pool6() []plugConf {
 	return []plugConf{
 		{"server_id", []string{"LL", "00:de:ad:be:ef:00"}}, {"dns", []string{"2001:4860:4860::8888"}}, {"searchdomains", []string{"example.org"}},
 		{"nbp", []string{"http://[2001:db8::1]/boot.efi?params=a=b"}}, {"sleep", []string{"1ms"}}, {"file", []string{"leases6.txt"}},
-		{"prefix", []string{"2001:db8:0:fffc::/62", "64"}},
+		{"prefix", []string{"2001:db8:0:fffc::/62", "64"}}, {"file", []string{"leases6.txt", "autorefresh"}},
 	}
 }
 
@@ -240,10 +242,51 @@ func wellFormed6(r *rand.Rand, ownDUID dhcpv6.DUID) ([]byte, string) {
 	return outer.ToBytes(), kind
 }
 
+// optShort4 rewrites one option of a DHCPv4 datagram (or injects it) with a value of 0..5 random bytes:
+// the codec does not validate per-option lengths, so every reader of an option meets these.
+func optShort4(b []byte, r *rand.Rand) ([]byte, bool) {
+	d, err := dhcpv4.FromBytes(b)
+	if err != nil {
+		return b, false
+	}
+	codes := []uint8{50, 51, 53, 54, 55, 57, 61, 82, 108, 116, 12, 1, 3, 6}
+	c := codes[r.Intn(len(codes))]
+	v := make([]byte, r.Intn(6))
+	r.Read(v)
+	if c == 53 && len(v) > 0 {
+		v[0] = []byte{1, 3}[r.Intn(2)]
+	}
+	d.Options[c] = v
+	return d.ToBytes(), true
+}
+
+// optShort6 appends an option with a too-short (or odd) body to the innermost DHCPv6 message bytes.
+func optShort6(b []byte, r *rand.Rand) ([]byte, bool) {
+	if len(b) < 4 || b[0] == 12 || b[0] == 13 {
+		return b, false
+	}
+	codes := []uint16{1, 2, 3, 25, 26, 6, 8, 14, 16, 39, 79}
+	c := codes[r.Intn(len(codes))]
+	v := make([]byte, r.Intn(7))
+	r.Read(v)
+	out := append([]byte{}, b...)
+	out = append(out, byte(c>>8), byte(c), 0, byte(len(v)))
+	return append(out, v...), true
+}
+
 func mutate(b []byte, r *rand.Rand) ([]byte, string) {
 	b = append([]byte{}, b...)
 	if len(b) == 0 {
 		return b, "empty"
+	}
+	if r.Intn(3) == 0 {
+		if len(b) >= 240 {
+			if nb, ok := optShort4(b, r); ok {
+				return nb, "opt-short"
+			}
+		} else if nb, ok := optShort6(b, r); ok {
+			return nb, "opt-short"
+		}
 	}
 	switch r.Intn(9) {
 	case 0:
@@ -415,6 +458,40 @@ func runServerOne(t *Trace, c4, c6 []plugConf, seed int64, ndg int) error {
 	l4 := server.NewVerifListener4(h4, net.Interface{Index: ifx})
 	l6 := server.NewVerifListener6(h6, net.Interface{})
 	r := rand.New(rand.NewSource(seed))
+	// with autorefresh in the chain the environment keeps appending to the lease files while the history runs
+	auto := false
+	for _, p := range append(append([]plugConf{}, c4...), c6...) {
+		if p.Name == "file" && len(p.Args) > 1 {
+			auto = true
+		}
+	}
+	stopRewrite := make(chan struct{})
+	var rw sync.WaitGroup
+	if auto {
+		rw.Add(1)
+		go func() {
+			defer rw.Done()
+			for i := 0; ; i++ {
+				select {
+				case <-stopRewrite:
+					return
+				default:
+				}
+				for _, fn := range []string{"leases4.txt", "leases6.txt"} {
+					if f, err := os.OpenFile(fn, os.O_WRONLY|os.O_APPEND, 0); err == nil {
+						if fn == "leases4.txt" {
+							fmt.Fprintf(f, "02:00:00:00:02:%02x 10.0.2.%d\n", i%200, i%200)
+						} else {
+							fmt.Fprintf(f, "02:00:00:00:02:%02x 2001:db8::2:%x\n", i%200, i%200)
+						}
+						f.Close()
+					}
+				}
+				time.Sleep(200 * time.Microsecond)
+			}
+		}()
+	}
+	defer func() { close(stopRewrite); rw.Wait() }()
 	own := &dhcpv6.DUIDLL{HWType: 1, LinkLayerAddr: net.HardwareAddr{0, 0xde, 0xad, 0xbe, 0xef, 0}}
 	peer4 := &net.UDPAddr{IP: net.IPv4(10, 0, 0, 9), Port: 68}
 	dead := false
@@ -443,6 +520,48 @@ func runServerOne(t *Trace, c4, c6 []plugConf, seed int64, ndg int) error {
 		if fr.res == "wedged" || fr.res == "slow" {
 			dead = true
 		}
+	}
+	// with autorefresh: a burst of concurrent datagrams while the files are being rewritten (the watcher's
+	// write lock then meets handlers holding the read lock)
+	if auto && !dead {
+		var bw sync.WaitGroup
+		var bmu sync.Mutex
+		for w := 0; w < 8; w++ {
+			bw.Add(1)
+			go func(w int) {
+				defer bw.Done()
+				rr := rand.New(rand.NewSource(seed + int64(w)))
+				for i := 0; i < 25; i++ {
+					bmu.Lock()
+					stop := dead
+					bmu.Unlock()
+					if stop {
+						return
+					}
+					proto := 4
+					if c4 == nil || (c6 != nil && rr.Intn(2) == 0) {
+						proto = 6
+					}
+					var b []byte
+					var kind string
+					peer := peer4
+					if proto == 4 {
+						b, kind = wellFormed4(rr)
+					} else {
+						b, kind = wellFormed6(rr, own)
+						peer = &net.UDPAddr{IP: net.ParseIP("fe80::99"), Port: 546}
+					}
+					fr := feed(l4, l6, proto, b, 7, peer)
+					t.Emit(Ev{"ev": "dg", "proto": proto, "kind": kind, "mut": "burst", "len": len(b), "res": fr.res, "n": fr.n, "msg": fr.msg})
+					if fr.res == "wedged" || fr.res == "slow" {
+						bmu.Lock()
+						dead = true
+						bmu.Unlock()
+					}
+				}
+			}(w)
+		}
+		bw.Wait()
 	}
 	// liveness probes: one ordinary request per protocol must still be handled
 	if c4 != nil {
@@ -622,7 +741,8 @@ func runServerConc(t *Trace, seed int64, rounds int) error {
 		}
 	})
 	defer verifhook.Install(nil)
-	for round := 0; round < rounds; round++ {
+	var wedged int32 // set once a handler is parked on a mutex: the instance is dead, stop feeding it
+	for round := 0; round < rounds && atomic.LoadInt32(&wedged) == 0; round++ {
 		stop := make(chan struct{})
 		var fw sync.WaitGroup
 		fw.Add(1)
@@ -665,7 +785,13 @@ func runServerConc(t *Trace, seed int64, rounds int) error {
 						if r.Intn(2) == 0 {
 							d.UpdateOption(dhcpv4.OptMessageType(dhcpv4.MessageTypeRequest))
 						}
+						if atomic.LoadInt32(&wedged) != 0 {
+							return
+						}
 						fr := feed(l4, l6, 4, d.ToBytes(), 7, &net.UDPAddr{IP: net.IPv4(10, 0, 0, 9), Port: 68})
+						if fr.res == "wedged" || fr.res == "slow" {
+							atomic.StoreInt32(&wedged, 1)
+						}
 						e := Ev{"fam": "server", "ev": "dg", "proto": 4, "kind": "conc", "mut": "none", "len": 0, "res": fr.res, "n": fr.n, "msg": fr.msg, "match": true}
 						if len(fr.sent4) == 1 {
 							s := fr.sent4[0]
@@ -691,7 +817,13 @@ func runServerConc(t *Trace, seed int64, rounds int) error {
 							m.AddOption(&dhcpv6.OptIAPD{IaId: [4]byte{byte(w), byte(i), 0, byte(k)}})
 						}
 						wire := m.ToBytes()
+						if atomic.LoadInt32(&wedged) != 0 {
+							return
+						}
 						fr := feed(l4, l6, 6, wire, 7, &net.UDPAddr{IP: net.ParseIP("fe80::99"), Port: 546})
+						if fr.res == "wedged" || fr.res == "slow" {
+							atomic.StoreInt32(&wedged, 1)
+						}
 						e := Ev{"fam": "server", "ev": "dg", "proto": 6, "kind": "conc", "mut": "none", "len": 0, "res": fr.res, "n": fr.n, "msg": fr.msg, "match": true}
 						if len(fr.sent6) == 1 {
 							if rm, err := fr.sent6[0].Resp.GetInnerMessage(); err == nil {
